@@ -111,6 +111,14 @@ class PySnmpCodeGen(IntermediateCodeGen):
 
         context['imports'] = imports
 
+        # Remember original (possibly hyphenated) MIB symbol names so that
+        # symbols get exported under the names other MIBs import them by
+
+        for symbol, definition in context.items():
+            origName = symbolTable.get(mibInfo.name, {}).get(symbol)
+            if isinstance(origName, dict) and origName.get('origName', symbol) != symbol:
+                definition['label'] = origName['origName']
+
         # Turn string OIDs into tuples which is native to pysnmp
         # TODO: we should make intermediate format producing tuples
 
